@@ -4,15 +4,6 @@ import OhkamiModel.P.FangsScopeMerge
 namespace Ohkami.Fangs
 open Ohkami
 
--- the ids of the applications of a tree (`ID::new()`: a process-wide counter, so they are pairwise distinct)
-mutual
-def idsOf : App → List Nat
-  | .mk id _ _ mounts => id :: idsOfMounts mounts
-def idsOfMounts : List (Route × App) → List Nat
-  | [] => []
-  | (_, a) :: rest => idsOf a ++ idsOfMounts rest
-end
-
 /-! ### `apply_fangs` -/
 theorem applyKids_eq_map (id : Nat) : ∀ ks : List BN, applyKids id ks = ks.map (applyFangs id)
   | [] => rfl
